@@ -3,7 +3,7 @@
 tier=${1:-quick}
 cd /verif
 for id in $(python3 -c "import json;print(' '.join(c['property_id'] for c in json.load(open('MANIFEST.json'))['checks']))"); do
-  s=$(date +%s); out=$(bin/check $id --tier $tier 2>/dev/null | grep -v "^\["); rc=$?
+  s=$(date +%s); out=$(bin/check $id --tier $tier 2>/dev/null; echo "__rc=$?"); rc=$(echo "$out" | sed -n 's/^__rc=//p'); out=$(echo "$out" | grep -v "^\[\|^__rc=")
   echo "$id rc=$rc $(( $(date +%s) - s ))s :: $(echo "$out" | grep SUMMARY)"
   echo "$out" | grep "VIOLATION\|INCONCLUSIVE\|MISMATCH\|KNOWN-FINDING" | head -5
 done
